@@ -36,6 +36,10 @@ THEOREMS = [
     "C04.round_without_migrations_leaves_txn",
     "C04.round_failure_eq_standalone",
     "C04.rounds_independent",
+    "C04.run_leaves_no_txn_single_partial",
+    "C04.rounds_independent_partial",
+    "C04.orphan_round_loses_rows",
+    "C04.owned_external_keeps",
     "C04.read_noop",
     "C04.read_noop_per_migration",
     "C04.configure_perMig_own",
@@ -43,6 +47,10 @@ THEOREMS = [
     "C04.configure_tddl_own_partial",
 ]
 PARTIAL = {
+    "C04.rounds_independent_partial": "rounds of the one-enclosing-transaction regime must not contain autocommit blocks (missing: the "
+                                      "complete-migration lemma for autocommit blocks when the transaction was opened at the env.py level); "
+                                      "per-migration rounds need at least one migration (otherwise false: finding C04-F2)",
+    "C04.run_leaves_no_txn_single_partial": "same restriction: no autocommit block in the round's migrations",
     "C04.rounds_independent": "needs every round to have at least one migration: the full statement - every sequence of rounds on one "
                               "connection behaves like standalone runs - is false on the unchanged tree when a round has nothing to do "
                               "(kernel-checked witness C04.round_without_migrations_leaves_txn, finding C04-F2)",
